@@ -2,6 +2,7 @@ import QipVerif.Gen.GatePaths
 import QipVerif.Lemmas.GateC
 import QipVerif.Lemmas.GateDoc
 import QipVerif.Lemmas.GateCtrl
+import QipVerif.Lemmas.GateExact
 import QipVerif.Model.Circuit
 /-!
 # C09 — library gates are unitary, match their documented matrix, and are path-independent
@@ -433,5 +434,43 @@ theorem class_only_gates : ctrl G.x_gate_ = G.cnot_ ∧ ctrl (!![0, 1; 1, 0] : M
 otherwise (extracted from circuit.py), so the circuit path offers the union of the two name sets and resolves a shared
 name like the class path — equal to the generic path by `path_*` -/
 theorem circuit_dispatch : G.circuitDispatch = "class-if-mapped-else-generic" := by decide
+
+/-- … so the names a circuit reaches through the generic `Gate` are the ones of the chain that are no key of
+`GATE_CLASS_MAP`: PHASEGATE, IDLE (and the GLOBALPHASE marker, which has no matrix) -/
+theorem circuit_generic_only :
+    (G.genericPath.filter fun p => (G.classPath.lookup p.1).isNone).map Prod.fst = ["PHASEGATE", "IDLE", "GLOBALPHASE"] := by
+  decide
+
+/-! ## The exact gate library is the translated source
+
+`gateE` (ℤ[ζ₁₆][½], used by `fixed_gates_unitary` / `sqrt_relations` above and as the semantics of fixed gates in the
+circuit denotation of C01, C03, C07, C13) read over ℂ is the matrix generated from gates.py, for EVERY fixed gate — so
+the exact layer no longer rests only on the numerical comparison with the implementation. -/
+open QipVerif.GateExact
+
+theorem exact_library_is_source :
+    toMatD 1 GateE.x = matN 1 G.x_gate_ ∧ toMatD 1 GateE.y = matN 1 G.y_gate_ ∧ toMatD 1 GateE.zg = matN 1 G.z_gate_ ∧
+    toMatD 1 GateE.s = matN 1 G.s_gate_ ∧ toMatD 1 GateE.t = matN 1 G.t_gate_ ∧ toMatD 1 GateE.snot = matN 1 G.snot_ ∧
+    toMatD 1 GateE.sqrtnot = matN 1 G.sqrtnot_ ∧ toMatD 2 GateE.cnot = matN 2 G.cnot_ ∧
+    toMatD 2 GateE.csign = matN 2 G.csign_ ∧ toMatD 2 GateE.csign = matN 2 G.cz_gate_ ∧
+    toMatD 2 GateE.cy = matN 2 G.cy_gate_ ∧ toMatD 2 GateE.cs = matN 2 G.cs_gate_ ∧ toMatD 2 GateE.ct = matN 2 G.ct_gate_ ∧
+    toMatD 2 GateE.swap = matN 2 G.swap_ ∧ toMatD 2 GateE.iswap = matN 2 G.iswap_ ∧
+    toMatD 2 GateE.sqrtswap = matN 2 G.sqrtswap_ ∧ toMatD 2 GateE.sqrtiswap = matN 2 G.sqrtiswap_ ∧
+    toMatD 2 GateE.berkeley = matN 2 G.berkeley_ ∧ toMatD 3 GateE.fredkin = matN 3 G.fredkin_ ∧
+    toMatD 3 GateE.toffoli = matN 3 G.toffoli_ :=
+  ⟨x_exact, y_exact, z_exact, s_exact, t_exact, snot_exact, sqrtnot_exact, cnot_exact, csign_exact, cz_exact, cy_exact,
+   cs_exact, ct_exact, swap_exact, iswap_exact, sqrtswap_exact, sqrtiswap_exact, berkeley_exact, fredkin_exact,
+   toffoli_exact⟩
+
+/-- the circuit semantics of a fixed gate (`compactC`) is the generated matrix; the controlled rotations of the circuit
+semantics (`ctrl1`) are `ctrlN` with one control and value 1 -/
+theorem circuit_semantics_is_source (θ : ℝ) :
+    compactC .CNOT θ = some ⟨2, matN 2 G.cnot_⟩ ∧ compactC .TOFFOLI θ = some ⟨3, matN 3 G.toffoli_⟩ ∧
+    compactC .BERKELEY θ = some ⟨2, matN 2 G.berkeley_⟩ ∧ compactC .SNOT θ = some ⟨1, matN 1 G.snot_⟩ ∧
+    compactC .CRX θ = some ⟨2, ctrlN 1 1 (G.rx_ θ)⟩ ∧ compactC .CPHASE θ = some ⟨2, ctrlN 1 1 (G.phasegate_ θ)⟩ := by
+  have h := compactC_fixed_is_source θ
+  refine ⟨h.2.2.2.2.2.2.2.1, h.2.2.2.2.2.2.2.2.2.2.2.2.2.2.2.2.2.2.2, h.2.2.2.2.2.2.2.2.2.2.2.2.2.2.2.2.2.1, h.2.2.2.2.2.1, ?_, ?_⟩
+  · simp only [compactC, ctrl1_eq_ctrlN]
+  · simp only [compactC, ctrl1_eq_ctrlN]
 
 end QipVerif.C09
